@@ -3,9 +3,21 @@
 import json, subprocess
 ALL = [f"C{n:02d}" for n in range(1, 18)]
 CHECKS = {
+ "C01": dict(tech="differential property-based testing (unoptimised vs optimised engine, all 16 switch sets) with reference-based attribution of known findings",
+   text="12 000 (quick) / 400 000 (thorough) generated rules - grammar G (half negation-free) and optimiser-shaped rules (shared fields, same-holder nested blocks, matrix-shaped or-groups) - x 16 switch sets x 8 documents, plus the repository's 46 rule files: optimised verdict == unoptimised verdict and no panic in optimise()/matches(). Exploration.",
+   note="Known findings K1 (double negation removal), K2 (and-group reordering) and K5 (identifier bodies restructured with coalesce off) are attributed only when the mismatch is explained by the reference interpreter relaxed by exactly those two effects, or by the (switch set, condition shape) signature; everything else is a violation. Fixed findings F5, F10, F11, F15 are replayed strictly.", ref="DESIGN.md 4 C01, 5"),
  "C02": dict(tech="property-based differential testing against an independent reference interpreter (proptest, grammar-based rule generator, recipe-based documents, set-valued oracle)",
    text="Generated-input search: 24 000 (quick) / 400 000 (thorough) grammar-generated rules x 8 documents each, the engine's three-valued result (probed with C and not (C)) must be admissible for an independently written interpreter of the rule language working from the YAML text; plus the repository's own 40 loadable rule files. Exploration, not proof: holds on everything generated.",
    note="Trusts serde_yaml as YAML parser and the regex crate for regex semantics. Undocumented zones (wrong value kind, cross-kind numeric comparison, quantified lists on array fields, the K3/K7 shapes) are set-valued or not judged and counted in evidence.", ref="DESIGN.md 4 C02, Appendix A"),
+ "C03": dict(tech="property-based robustness testing with token-soup / single-edit mutation generators and adversarial documents, plus an independent validity oracle",
+   text="9 000 / 300 000 rule texts from three sources (almost-valid token soup conditions, grammar rules with one random edit, valid rules) with malformed example lists; every accepted rule is optimised with 16 switch sets, matched against 43 adversarial documents (every value kind for every key, 64-bit extremes, NaN/inf, 64 KiB strings, deep objects) and validate()d: no panic, and an accepted condition mentions only existing identifiers and applies and/or/not only to predicates.",
+   note="Conditions the reference parser cannot structure (unbalanced parentheses tolerated by the engine) are checked for no-panic only. The char::from_u32 matrix-key limit (> 55 295 fields in one or-group) is not attacked.", ref="DESIGN.md 4 C03"),
+ "C04": dict(tech="exhaustive small-alphabet enumeration, hand-written degenerate corpus, proptest string / YAML-shape generators, in-process watchdog; thorough adds coverage-guided libFuzzer campaigns (cargo-fuzz, 4 targets)",
+   text="Every string of length <= 4 over 14 symbols as condition and as mapping key, length <= 3 (thorough 4) as pattern value under every key modifier and list position; ~170 degenerate strings in all roles; 40 000 / 1 000 000 random strings and arbitrary YAML value trees (whole rule and substituted into valid rules, nesting 1..64); thorough: libFuzzer on load_text / cond_text / pattern_text / load_structured. Oracle: Ok or Err, no panic/overflow (overflow checks compiled in), terminates within 20 s (watchdog, confirmed in fresh processes).",
+   note="Native stack exhaustion beyond depth 64 is out of scope. libFuzzer campaigns are only approximately reproducible from a seed; the saved input is the reproducible unit and is replayed with the fuzz binary.", ref="DESIGN.md 4 C04"),
+ "C05": dict(tech="exhaustive enumeration of small conditions + proptest for larger ones; structural comparison with an independent precedence-climbing parser, reference evaluation, metamorphic parenthesis/space/rename variants",
+   text="All 3 393 well-formed conditions of <= 7 tokens (thorough 8) over A B C and/or/not/() x 27 truth assignments, plus 6 000 / 200 000 larger conditions with all()/of()/cast comparisons: parsed tree equals the reference tree (not > cmp > or > and, left-assoc), three-valued results equal the reference, and full/partial parenthesisation, extra spaces and keyword-prefixed identifier names leave every verdict unchanged.",
+   note="Associativity is pinned structurally on the unoptimised expression read through the `core` feature types.", ref="DESIGN.md 4 C05"),
  "C06": dict(tech="exhaustive enumeration of truth tables over generated rule/document pairs",
    text="Complete enumeration of every connective form x arity 1..4 (thorough 5 + nested forms) x every operand vector in {T,F,M}^k x thresholds 0..k+1; and/or/not compared as full three-valued results, all/of on truth. Exhaustive within the stated bound.",
    note="Operands are realised by documents (field equal / different / absent); three-valued results are observed through the verdicts of C and not (C).", ref="DESIGN.md 4 C06"),
@@ -21,6 +33,27 @@ CHECKS = {
  "C10": dict(tech="exhaustive enumeration of documents x paths against an independent resolver, metamorphic dotted-vs-nested rule forms, random-key totality (proptest)",
    text="~2 200 documents of depth <= 3 x every path of 1..3 (thorough 4) optionally indexed segments through five document representations (26M lookups), compared by value identity with an independent resolver; dotted key vs nested-mapping rule forms vs reference; 30 000 / 300 000 random key strings for totality.",
    note="Only well-formed paths are compared; other keys are checked for no-panic only.", ref="DESIGN.md 4 C10"),
+ "C11": dict(tech="differential property-based testing across document representations (proptest), typed std documents with boundary-biased values",
+   text="6 000 / 200 000 rules x 6 documents rendered as hand-written Object, serde_yaml Mapping (built and re-read from text), serde_json Value/Map (built and re-read), HashMap<String, yaml|json|model>: same verdict (unoptimised and default-optimised) and same find() on every path; 12 000 / 300 000 typed HashMap<String, T> documents for 28 std types: value kind, numeric value and signedness preserved and ~25 discriminating rules agree with the same data as a hand-written Object.",
+   note="Comparison base is the document with non-negative integers normalised to unsigned (YAML/JSON cannot carry the distinction); JSON only for finite floats.", ref="DESIGN.md 4 C11"),
+ "C12": dict(tech="property-based repeat/differential testing: repeated optimise calls, two fresh worker processes, 16 threads sharing one rule with shuffled document orders",
+   text="2 400 / 60 000 rules (merge-heavy, optimiser-shaped, grammar G) x 24 repeated optimise() calls and reloads: identical printed expression and verdicts; 600 / 6 000 rules compared between two freshly spawned processes; 160 / 3 000 rules matched from 16 threads in shuffled orders; verdicts independent of match history and matching leaves the rule unchanged.",
+   note="Thread schedules are sampled under the OS scheduler, not enumerated (the technique cannot own the schedule here).", ref="DESIGN.md 4 C12"),
+ "C13": dict(tech="property-based testing of validate() against matches() with marker-carrying generated examples and malformed entries",
+   text="16 000 / 400 000 rules (optimised or not) with generated true_positives/true_negatives carrying unique markers and occasional non-mapping entries: validate() is Ok(true) iff matches() agrees with every example, otherwise a Validation error naming exactly the failing examples; never a panic.",
+   note="Markers are fields the rule never addresses.", ref="DESIGN.md 4 C13"),
+ "C14": dict(tech="round-trip property-based testing (serialise / reload / compare structure and verdicts) with quoting-sensitive string injection",
+   text="10 000 / 300 000 rules with quoting-sensitive scalars and spaced conditions: from_str and from_value agree; to_string of the rule (as loaded and after optimise) parses to the same condition, identifiers and examples, reloads, gives the original verdicts on every document, and a second round trip is a fixed point.",
+   note="Identifier names are YAML strings.", ref="DESIGN.md 4 C14"),
+ "C15": dict(tech="differential property-based testing between two builds (default vs ignore_case cargo feature) plus reference in ignore_case mode",
+   text="8 000 / 250 000 rules x 12 documents (6 recipes and their case-swapped copies): the ignore_case build on the rule as written equals the default build on the rule with every string pattern i-prefixed, and is admissible for the reference in ignore_case mode.",
+   note="The ignore_case binary is built by check.sh into harness/target-ic from the same /repo tree and runs as a child process.", ref="DESIGN.md 4 C15"),
+ "C16": dict(tech="property-based testing with a recording Document/Object implementation and metamorphic unaddressed-field variants over all switch sets",
+   text="8 000 / 150 000 rules x 17 optimisation states x 6 documents: every key asked of the root or of a nested object is written in the rule (never a synthetic matrix key, never keys()), and adding/removing/altering unaddressed fields (incl. fields named U+0000..U+0003, and inside nested objects) never changes a verdict.",
+   note="Root keys are checked against top-level rule keys and condition cast fields, nested-object keys against keys written in nested blocks (path segments allowed).", ref="DESIGN.md 4 C16"),
+ "C17": dict(tech="metamorphic property-based testing: permutation of commutative operand positions (exhaustive for <= 4 operands)",
+   text="5 000 / 150 000 negation-free rules (a third conjoined with an untouched `not N`) x 8 documents: every permutation of one random commutative position (<= 4 operands, else 24 samples), reversals of up to 8 other positions and 3 global shuffles give the original verdicts, unoptimised and default-optimised.",
+   note="Nothing underneath a negation, not(k) or of(..,0) is reordered.", ref="DESIGN.md 4 C17"),
 }
 PENDING_REASON = "check not built yet in this revision of /verif (work in progress; see DESIGN.md Appendix B)"
 def main():
